@@ -1,11 +1,14 @@
-"""Part of E6 — 'by construction' lattice for returned values:
+"""Part of E6 — 'by construction' lattice for returned values, computed by a small forward interpreter:
 
-  NONNEG  a scalar that is >= 0 by the way it is built (norm, sqrt, abs, 0.0, max(.,0), a callee's NONNEG result ...)
+  NONNEG  a scalar that is >= 0 by the way it is built (norm, sqrt, abs, 0.0, max(.,0), squares, a callee's NONNEG result ...)
   UNIT0   a vector that is norm_vector(...) (unit or zero) or np.zeros(...)
   ZERO    np.zeros(3) / 0.0
+  NONE    the None placeholder (no result)
   OTHER   anything else (no claim)
 
-Return summaries are tuples of these per return position, joined over all return statements, computed on demand
+Flow sensitive (statement order, joins at if/else and loops).  Conditions on parameters that have a constant default are
+decided with that default (the properties' domain uses the default flags, e.g. point_to_plane(signed=False)).
+Return summaries are tuples of kinds per return position, joined over all reachable return statements, computed on demand
 through package-internal calls.
 """
 import ast
@@ -21,6 +24,14 @@ def join(a, b):
         return b
     if b is None:
         return a
+    if isinstance(a, tuple) or isinstance(b, tuple):
+        if isinstance(a, tuple) and isinstance(b, tuple) and len(a) == len(b):
+            return tuple(join(x, y) for x, y in zip(a, b))
+        if a == NONE:
+            return b
+        if b == NONE:
+            return a
+        return OTHER
     if a == b:
         return a
     if {a, b} == {NONNEG, ZERO}:
@@ -28,7 +39,7 @@ def join(a, b):
     if {a, b} == {UNIT0, ZERO}:
         return UNIT0
     if NONE in (a, b):
-        return a if b == NONE else b   # `None` placeholders (no intersection) carry no claim either way
+        return a if b == NONE else b
     return OTHER
 
 
@@ -38,75 +49,166 @@ class Signs:
         self._sum = {}
         self._busy = set()
 
-    def summary(self, f):
-        """tuple of kinds (or a single kind) for f's return value"""
-        if f.key in self._sum:
-            return self._sum[f.key]
-        if f.key in self._busy:
+    def summary(self, f, bound=None):
+        """bound: {param: constant} known at the call site (flags passed as literals or from the caller's defaults)"""
+        bkey = (f.key, tuple(sorted((bound or {}).items(), key=lambda kv: kv[0])))
+        if bkey in self._sum:
+            return self._sum[bkey]
+        if bkey in self._busy:
             return None
-        self._busy.add(f.key)
-        env = self._env(f)
+        self._busy.add(bkey)
+        env = {}
+        # parameters with constant defaults
+        self._defaults = getattr(self, "_defaults", {})
+        defaults = {}
+        a = f.node.args
+        pos = a.posonlyargs + a.args
+        for p, d in zip(pos[len(pos) - len(a.defaults):], a.defaults):
+            v = const(d)
+            if isinstance(v, (bool, int, float)) or (isinstance(d, ast.Constant) and d.value is None):
+                defaults[p.arg] = d.value if isinstance(d, ast.Constant) else v
+        defaults.update(bound or {})
+        rets = []
+        self._block(f.node.body, env, f, rets, defaults)
         out = None
-        for st in iter_stmts(f.node.body):
-            if isinstance(st, ast.Return) and st.value is not None:
-                v = self.kind_tuple(st.value, f, env, st.lineno)
-                if out is None:
-                    out = v
-                elif isinstance(out, tuple) and isinstance(v, tuple) and len(out) == len(v):
-                    out = tuple(join(a, b) for a, b in zip(out, v))
-                elif not isinstance(out, tuple) and not isinstance(v, tuple):
-                    out = join(out, v)
-                else:
-                    out = OTHER
-        self._busy.discard(f.key)
-        self._sum[f.key] = out
+        for r in rets:
+            out = join(out, r)
+        self._busy.discard(bkey)
+        self._sum[bkey] = out
         return out
 
-    def _env(self, f):
-        """name -> list of (lineno, value node | ('elt', i, call node))"""
-        env = {}
-        for st in iter_stmts(f.node.body):
-            if isinstance(st, ast.Assign):
-                for t in st.targets:
-                    if isinstance(t, ast.Name):
-                        env.setdefault(t.id, []).append((st.lineno, st.value))
-                    elif isinstance(t, ast.Tuple):
-                        for i, e in enumerate(t.elts):
-                            if isinstance(e, ast.Name):
-                                if isinstance(st.value, ast.Tuple) and len(st.value.elts) == len(t.elts):
-                                    env.setdefault(e.id, []).append((st.lineno, st.value.elts[i]))
-                                else:
-                                    env.setdefault(e.id, []).append((st.lineno, ("elt", i, st.value)))
-            elif isinstance(st, ast.AugAssign) and isinstance(st.target, ast.Name):
-                env.setdefault(st.target.id, []).append((st.lineno, ("aug", st.op, st.value)))
-        return env
+    def _call_summary(self, node, f, env):
+        callee = self.idx.resolve_call(f.module, node, f.cls)
+        if not isinstance(callee, FuncInfo):
+            return None
+        ps = callee.params()
+        bound = {}
+        cur = getattr(self, "_cur_defaults", {})
+        for i, a in enumerate(node.args):
+            if i < len(ps):
+                if isinstance(a, ast.Constant) and isinstance(a.value, bool):
+                    bound[ps[i]] = a.value
+                elif isinstance(a, ast.Name) and a.id in cur and isinstance(cur[a.id], bool):
+                    bound[ps[i]] = cur[a.id]
+        for kw in node.keywords:
+            if kw.arg in ps and isinstance(kw.value, ast.Constant) and isinstance(kw.value.value, bool):
+                bound[kw.arg] = kw.value.value
+        return self.summary(callee, bound)
 
-    def kind_tuple(self, node, f, env, at):
+    # ------------------------------------------------------------------ statements
+    def _truth(self, test, defaults):
+        """True / False / None for tests decided by default parameter values"""
+        if isinstance(test, ast.Name) and test.id in defaults and isinstance(defaults[test.id], bool):
+            return defaults[test.id]
+        if isinstance(test, ast.UnaryOp) and isinstance(test.op, ast.Not):
+            t = self._truth(test.operand, defaults)
+            return None if t is None else (not t)
+        return None
+
+    def _block(self, body, env, f, rets, defaults):
+        """returns True when the block always returns"""
+        self._cur_defaults = defaults
+        for st in body:
+            self._cur_defaults = defaults
+            if self._stmt(st, env, f, rets, defaults):
+                return True
+        return False
+
+    def _stmt(self, st, env, f, rets, defaults):
+        if isinstance(st, ast.Return):
+            rets.append(self.kind_tuple(st.value, f, env) if st.value is not None else NONE)
+            return True
+        if isinstance(st, ast.Assign):
+            v = self.kind_tuple(st.value, f, env)
+            for t in st.targets:
+                self._assign(t, v, st.value, env, f, defaults)
+            return False
+        if isinstance(st, ast.AugAssign):
+            if isinstance(st.target, ast.Name):
+                cur = env.get(st.target.id, OTHER)
+                v = self.kind(st.value, f, env)
+                if isinstance(st.op, (ast.Add, ast.Mult)) and cur in (NONNEG, ZERO) and v in (NONNEG, ZERO):
+                    env[st.target.id] = NONNEG
+                else:
+                    env[st.target.id] = OTHER
+            return False
+        if isinstance(st, ast.If):
+            t = self._truth(st.test, defaults)
+            if t is True:
+                return self._block(st.body, env, f, rets, defaults)
+            if t is False:
+                return self._block(st.orelse, env, f, rets, defaults)
+            e1, e2 = dict(env), dict(env)
+            r1 = self._block(st.body, e1, f, rets, defaults)
+            r2 = self._block(st.orelse, e2, f, rets, defaults)
+            if r1 and r2:
+                return True
+            src = e2 if r1 else (e1 if r2 else None)
+            if src is not None:
+                env.clear()
+                env.update(src)
+            else:
+                for k in set(e1) | set(e2):
+                    env[k] = join(e1.get(k, OTHER if k in e2 else None), e2.get(k, OTHER if k in e1 else None)) if (k in e1 and k in e2) else OTHER
+            return False
+        if isinstance(st, (ast.For, ast.While)):
+            if isinstance(st, ast.For):
+                for n in ast.walk(st.target):
+                    if isinstance(n, ast.Name):
+                        env[n.id] = OTHER
+            pre = dict(env)
+            for _ in range(2):
+                e1 = dict(env)
+                self._block(st.body, e1, f, rets, defaults)
+                for k in set(e1) | set(env):
+                    if k in e1 and k in env:
+                        env[k] = join(env[k], e1[k])
+                    elif k in e1:
+                        env[k] = e1[k]     # defined inside the loop (best-of variables): value after >= 1 iteration
+            return False
+        if isinstance(st, (ast.With, ast.Try)):
+            return self._block(st.body, env, f, rets, defaults)
+        return False
+
+    def _assign(self, t, v, valnode, env, f, defaults):
+        if isinstance(t, ast.Name):
+            env[t.id] = v if not isinstance(v, tuple) else v
+        elif isinstance(t, ast.Tuple):
+            if isinstance(v, tuple) and len(v) == len(t.elts):
+                for a, b in zip(t.elts, v):
+                    self._assign(a, b, None, env, f, defaults)
+            elif isinstance(valnode, ast.Tuple) and len(valnode.elts) == len(t.elts):
+                for a, b in zip(t.elts, valnode.elts):
+                    self._assign(a, self.kind(b, f, env), None, env, f, defaults)
+            else:
+                for a in t.elts:
+                    self._assign(a, OTHER, None, env, f, defaults)
+
+    # ------------------------------------------------------------------ expressions
+    def kind_tuple(self, node, f, env):
+        if node is None:
+            return NONE
         if isinstance(node, ast.Tuple):
-            return tuple(self.kind(e, f, env, at) for e in node.elts)
-        if isinstance(node, ast.Subscript) and isinstance(node.slice, ast.Slice) and isinstance(node.value, ast.Call):
-            inner = self.kind_tuple(node.value, f, env, at)
+            return tuple(self.kind_tuple(e, f, env) if isinstance(e, ast.Tuple) else self.kind(e, f, env) for e in node.elts)
+        if isinstance(node, ast.Subscript) and isinstance(node.slice, ast.Slice):
+            inner = self.kind_tuple(node.value, f, env)
             if isinstance(inner, tuple) and node.slice.step is None:
                 lo = const(node.slice.lower) if node.slice.lower is not None else 0
                 hi = const(node.slice.upper) if node.slice.upper is not None else len(inner)
                 if isinstance(lo, int) and isinstance(hi, int):
                     return inner[lo:hi]
             return OTHER
-        if isinstance(node, ast.Name):
-            defs = env.get(node.id, [])
-            if len(defs) == 1 and not isinstance(defs[0][1], tuple) and isinstance(defs[0][1], (ast.Call, ast.Tuple, ast.Subscript)):
-                return self.kind_tuple(defs[0][1], f, env, at)
         if isinstance(node, ast.Call):
-            callee = self.idx.resolve_call(f.module, node, f.cls)
-            if isinstance(callee, FuncInfo):
-                s = self.summary(callee)
-                if s is not None:
-                    return s
-        return self.kind(node, f, env, at)
+            s = self._call_summary(node, f, env)
+            if s is not None:
+                return s
+        if isinstance(node, ast.Name) and isinstance(env.get(node.id), tuple):
+            return env[node.id]
+        return self.kind(node, f, env)
 
-    def kind(self, node, f, env, at, depth=0):
-        if depth > 12:
-            return OTHER
+    def kind(self, node, f, env, depth=0):
+        if node is None:
+            return NONE
         if isinstance(node, ast.Constant):
             if node.value is None:
                 return NONE
@@ -114,23 +216,19 @@ class Signs:
                 return ZERO if node.value == 0 else (NONNEG if node.value > 0 else OTHER)
             return OTHER
         if isinstance(node, ast.Name):
+            if node.id in env:
+                v = env[node.id]
+                return v
             r = self.idx.resolve_name(f.module, node.id)
-            if node.id not in env and r and r[0] == "const" and isinstance(r[1], (int, float)):
+            if r and r[0] == "const" and isinstance(r[1], (int, float)):
                 return NONNEG if r[1] >= 0 else OTHER
-            defs = env.get(node.id)
-            if not defs:
-                return OTHER
-            out = None
-            for ln, v in defs:
-                if isinstance(v, tuple) and v[0] == "elt":
-                    k = self._elt(v[1], v[2], f)
-                elif isinstance(v, tuple) and v[0] == "aug":
-                    k = OTHER
-                    # x *= positive / x += nonneg keep NONNEG only when every other definition is NONNEG; stay conservative
-                else:
-                    k = self.kind(v, f, {n: d for n, d in env.items() if n != node.id} | {node.id: [d for d in defs if d[0] < ln]}, ln, depth + 1)
-                out = join(out, k)
-            return out or OTHER
+            if node.id in ("MAX_FLOAT",):
+                return NONNEG
+            return OTHER
+        if isinstance(node, ast.Attribute):
+            if u(node).endswith(".max") and "finfo" in u(node):
+                return NONNEG
+            return OTHER
         if isinstance(node, ast.Call):
             cn = call_name(node) or ""
             short = cn.split(".")[-1]
@@ -141,33 +239,30 @@ class Signs:
             if cn in ("np.zeros",):
                 return ZERO
             if cn in ("max", "np.maximum", "np.fmax"):
-                ks = [self.kind(a, f, env, at, depth + 1) for a in node.args]
+                ks = [self.kind(a, f, env, depth + 1) for a in node.args]
                 return NONNEG if any(k in (NONNEG, ZERO) for k in ks) else OTHER
             if cn in ("min", "np.minimum"):
-                ks = [self.kind(a, f, env, at, depth + 1) for a in node.args]
+                ks = [self.kind(a, f, env, depth + 1) for a in node.args]
                 return NONNEG if ks and all(k in (NONNEG, ZERO) for k in ks) else OTHER
             if cn in ("float", "np.float64"):
-                return self.kind(node.args[0], f, env, at, depth + 1) if node.args else OTHER
+                return self.kind(node.args[0], f, env, depth + 1) if node.args else OTHER
             d = dot_args(node)
             if d is not None and u(d[0]) == u(d[1]):
                 return NONNEG
-            callee = self.idx.resolve_call(f.module, node, f.cls)
-            if isinstance(callee, FuncInfo):
-                s = self.summary(callee)
-                if s is not None and not isinstance(s, tuple):
-                    return s
+            s = self._call_summary(node, f, env)
+            if s is not None and not isinstance(s, tuple):
+                return s
             return OTHER
-        if isinstance(node, ast.Subscript) and isinstance(node.value, ast.Call):
-            i = const(node.slice)
-            callee = self.idx.resolve_call(f.module, node.value, f.cls)
-            if isinstance(callee, FuncInfo) and isinstance(i, int):
-                s = self.summary(callee)
-                if isinstance(s, tuple) and -len(s) <= i < len(s):
-                    return s[i]
+        if isinstance(node, ast.Subscript):
+            if isinstance(node.value, ast.Call) or isinstance(node.value, ast.Name):
+                i = const(node.slice)
+                inner = self.kind_tuple(node.value, f, env) if isinstance(node.value, ast.Call) else env.get(node.value.id)
+                if isinstance(inner, tuple) and isinstance(i, int) and -len(inner) <= i < len(inner):
+                    return inner[i]
             return OTHER
         if isinstance(node, ast.BinOp):
-            a = self.kind(node.left, f, env, at, depth + 1)
-            b = self.kind(node.right, f, env, at, depth + 1)
+            a = self.kind(node.left, f, env, depth + 1)
+            b = self.kind(node.right, f, env, depth + 1)
             if isinstance(node.op, (ast.Mult, ast.Add, ast.Div)) and a in (NONNEG, ZERO) and b in (NONNEG, ZERO):
                 return NONNEG if not (isinstance(node.op, ast.Div) and b == ZERO) else OTHER
             if isinstance(node.op, ast.Mult) and u(node.left) == u(node.right):
@@ -176,14 +271,5 @@ class Signs:
                 return NONNEG
             return OTHER
         if isinstance(node, ast.IfExp):
-            return join(self.kind(node.body, f, env, at, depth + 1), self.kind(node.orelse, f, env, at, depth + 1))
-        return OTHER
-
-    def _elt(self, i, call, f):
-        if isinstance(call, ast.Call):
-            callee = self.idx.resolve_call(f.module, call, f.cls)
-            if isinstance(callee, FuncInfo):
-                s = self.summary(callee)
-                if isinstance(s, tuple) and i < len(s):
-                    return s[i]
+            return join(self.kind(node.body, f, env, depth + 1), self.kind(node.orelse, f, env, depth + 1))
         return OTHER
